@@ -127,7 +127,7 @@ struct BytesWorld : World {
                 int v = (int)r.below(nv), w = (int)r.below(nv);
                 int64_t fail = faulty && r.chance(1, 7) ? 1 + (int64_t)r.below(2) : 0;
                 int64_t n = r.pickv({0, 1, 2, 3, 15, 16, 17, 31, 32, 33, 48, 100});
-                pl.add("ba", {(int64_t)r.below(15), v, w, n, (int64_t)r.below(256), fail});
+                pl.add("ba", {(int64_t)r.below(19), v, w, n, (int64_t)r.below(256), fail});
                 continue;
             }
 #endif
@@ -297,9 +297,10 @@ struct BytesWorld : World {
 
     void do_ba(Run &run, Pool &p, const Op &op)
     {
-        static const char *names[15] = {"default_construct", "construct_size_value", "copy_construct", "assign", "index_write", "index_read",
-                                        "data_write", "resize", "reserve", "push_back", "pop_back", "clear", "compare", "iterate", "destroy"};
-        int kind = (int)(op.u(0) % 15);
+        static const char *names[19] = {"default_construct", "construct_size_value", "copy_construct", "assign", "index_write", "index_read",
+                                        "data_write", "resize", "reserve", "push_back", "pop_back", "clear", "compare", "iterate", "destroy",
+                                        "end_write", "begin_write", "end_then_begin_fill", "const_read"};
+        int kind = (int)(op.u(0) % 19);
         int i = (int)(op.u(1) % NVARS), j = (int)(op.u(2) % NVARS);
         size_t n = (size_t)(op.u(3) % 300);
         unsigned char val = (unsigned char)op.u(4);
@@ -374,6 +375,28 @@ struct BytesWorld : World {
                 if (seen != m || cseen != m) run.violation("C20", "byte_array_equals_vector", "iterate", fmt("iteration saw %zu/%zu bytes, mirror has %zu", seen.size(), cseen.size(), m.size()));
                 break; }
             case 14: { Track t(fail); p.v(i).~BA(); p.live[i] = false; } m.clear(); break;
+            // every mutable accessor, used as the FIRST mutable access to a possibly shared buffer, must hand out the variable's own bytes
+            case 15: if (m.empty()) return; { { Track t(fail); *(p.v(i).end() - 1) = val; } m.back() = val; } break;
+            case 16: if (m.empty()) return; { { Track t(fail); *p.v(i).begin() = val; } m.front() = val; } break;
+            case 17: if (m.empty()) return; {
+                ptrdiff_t span;
+                {
+                    Track t(fail);
+                    BA::iterator e = p.v(i).end();   // end() first, begin() second: both must point into the same (own) buffer
+                    BA::iterator b = p.v(i).begin();
+                    span = e - b;
+                    if (span == (ptrdiff_t)m.size()) { unsigned char x = val; for (BA::iterator it = b; it != e; ++it) *it = x++; }
+                }
+                if (span != (ptrdiff_t)m.size()) run.violation("C20", "byte_array_equals_vector", "end_then_begin_fill", fmt("end() - begin() = %td for a value of %zu bytes", span, m.size()));
+                else { unsigned char x = val; for (size_t k = 0; k < m.size(); ++k) m[k] = x++; }
+                break; }
+            case 18: if (m.empty()) return; { // reading through a const reference (index, data(), end()) must see the value and change no other variable
+                const BA &cv = p.v(i);
+                size_t pos = n % m.size();
+                unsigned char a, b, c2;
+                { Track t; a = cv[pos]; b = cv.data()[pos]; c2 = *(cv.end() - 1); }
+                if (a != m[pos] || b != m[pos] || c2 != m.back()) run.violation("C20", "byte_array_equals_vector", "const_read", fmt("pos=%zu read %02x/%02x/%02x want %02x, last %02x", pos, a, b, c2, m[pos], m.back()));
+                break; }
             }
         } catch (const std::bad_alloc &) {
             threw = true;
